@@ -69,6 +69,14 @@ func (w *worker) modeCover(exec func(api uint8, in string) string, globals func(
 		fmt.Fprintln(f, common.B64(k))
 	}
 	f.Close()
+	if w.ses.Worker == 0 {
+		if df, err := os.Create(w.ses.SeqOut + ".dict"); err == nil {
+			for _, d := range dict {
+				fmt.Fprintln(df, common.B64(d))
+			}
+			df.Close()
+		}
+	}
 	w.sum.Runs = int64(w.ses.Runs)
 	w.sum.Calls = int64(2 * (w.ses.Runs + len(w.c.In)))
 	w.sum.CovEdgesBase = base
